@@ -59,8 +59,11 @@ def is_k14(exp, got):
 
 def _tok(args):
     exe, kinds, idx, seed, wd = args
-    r = random.Random(seed)
-    text = gen_pp.PP(r).unit()
+    if isinstance(seed, str):
+        text = seed            # a hand-written unit
+    else:
+        r = random.Random(seed)
+        text = gen_pp.PP(r).unit()
     rc, ref, err = gcc_cpp(text)
     res = {'idx': idx, 'text': text, 'n': 1}
     if rc != 0:
@@ -133,7 +136,7 @@ def run(tier):
     ntok, ncomp = (5000, 120) if tier == 'quick' else (150000, 6000)
     tot = {'expansions': 0, 'funclike': 0, 'maxdepth': 0, 'maxctx': 0, 'quiescent_checks': 0}
     monseen = 0
-    for res in common.pmap(_tok, [(exe, kinds, i, rng.getrandbits(48), wd) for i in range(ntok)], chunksize=10):
+    for res in common.pmap(_tok, [(exe, kinds, -1 - i, t, wd) for i, t in enumerate(gen_pp.FIXED_TOK)] + [(exe, kinds, i, rng.getrandbits(48), wd) for i in range(ntok)], chunksize=10):
         ck.evaluations += 1
         if 'skip' in res:
             ck.skip(res['skip'])
